@@ -484,6 +484,9 @@ func run(c *hc.Ctx) error {
 			cands = append(cands, cand{q, "prime-not-safe"})
 		}
 	}
+	for _, q := range hc.SafePrimesOffSize() { // genuine safe primes of the wrong size
+		cands = append(cands, cand{q, fmt.Sprintf("safe-prime-%d-bits", q.BitLen())})
+	}
 	cands = append(cands, cand{new(big.Int).Lsh(one, 2047), "2^2047"}, cand{new(big.Int).Sub(new(big.Int).Lsh(one, 2048), one), "2^2048-1"},
 		cand{new(big.Int).Lsh(one, 2048), "2^2048"}, cand{new(big.Int).Sub(new(big.Int).Lsh(one, 2047), one), "2^2047-1"}, cand{big.NewInt(23), "23"}, cand{big.NewInt(0), "0"})
 	for _, cd := range cands {
@@ -496,6 +499,9 @@ func run(c *hc.Ctx) error {
 		gs := []int{-1, 0, 1, 2, 3, 4, 5, 6, 7, 8, 9}
 		if cd.kind != "safe" {
 			gs = []int{hc.Pick(r, 2, 3, 4, 5, 6, 7), 4, hc.Pick(r, 0, 1, 8)}
+		}
+		if strings.HasPrefix(cd.kind, "safe-prime-") {
+			gs = []int{2, 3, 4, 5, 6, 7}
 		}
 		for _, g := range gs {
 			got := safely(func() string { return gpTag(crypto.CheckDH(g, p)) })
@@ -690,6 +696,45 @@ func run(c *hc.Ctx) error {
 		}
 		add(line, got)
 	}
+
+	// ---- 5. inputs outside the specification: pq ∈ {0, 1} (division-by-zero panics) and prime pq (no
+	// factorisation exists: runs until the random source is exhausted).  Model and code must still agree.
+	advPrimes := []int64{2, 3, 5, 7, 11, 13, 97, 251, 65521, 1048573}
+	for i := 0; i < c.N(24, 200); i++ {
+		var n *big.Int
+		kind := ""
+		if i%2 == 0 {
+			n, kind = big.NewInt(int64(i/2%2)), "pq-0-or-1"
+		} else {
+			n, kind = big.NewInt(advPrimes[r.Intn(len(advPrimes))]), "pq-prime"
+		}
+		words := hc.Pick(r, 0, 1, 2, 3, 8)
+		tape := make([]byte, 8*words)
+		var ws []string
+		for k := 0; k < words; k++ {
+			w := r.U64()
+			binary.BigEndian.PutUint64(tape[8*k:], w)
+			ws = append(ws, strconv.FormatUint(w, 10))
+		}
+		got := safely(func() string {
+			p, q, err := crypto.DecomposePQ(n, tapeReader{bytes.NewReader(tape)})
+			if err != nil {
+				return "tape"
+			}
+			return fmt.Sprintf("ok %s %s", p, q)
+		})
+		if strings.HasPrefix(got, "panic") {
+			got = "panic"
+		}
+		line := strings.TrimSpace(fmt.Sprintf("pq %s %s", n, strings.Join(ws, " ")))
+		c.Eval(line, true)
+		c.Count("pq." + kind + "." + strings.SplitN(got, " ", 2)[0])
+		if strings.HasPrefix(got, "ok") {
+			c.Fail("pq-bogus-factors", line, "DecomposePQ returned "+got+" for an input that has no factorisation into two factors > 1")
+		}
+		add(line, got)
+	}
+	c.Note("observation (outside the quantifier 'products of two primes'): DecomposePQ panics (division by zero) for pq = 0 and pq = 1 and never returns for a prime pq (theorems decompose_zero_one_panics, decompose_prime_never_returns); exchange/client_flow.go calls it on the server-supplied pq after checking only pq <= 2^63")
 
 	lap("4 DecomposePQ (implementation side)")
 	c.Res.Exhaustive = c.Thorough() // quick: only the CheckGP grid is exhaustive, the semiprime table is sampled
